@@ -9,6 +9,7 @@ from .. import lingen as L
 
 PROP = "C05"
 PROP_V = "theories/props/C05.v"
+MODEL_AREAS = ('front', 'tc', 'lin')
 
 
 def ok(o):
